@@ -11,6 +11,8 @@ package main
 //	hpack.dec <ctx> field bs=<0|1> fp=<n> ks=<0|1> <hex>
 //	        -> ok name=<hex> value=<hex> sens=<0|1> rest=<k> tbl=<tbl> max=<n>
 //	         | none rest=<k> tbl=<tbl> max=<n> | need-more | err     (need-more/err: the context starts afresh)
+//	           none: no field was produced — ErrUnexpectedSize with no octets handed back (the input ended behind
+//	           a dynamic table size update), or no error and the caller's HeaderField untouched
 //	hpack.dec <ctx> frame cont=<0|1> eh=<0|1> <hex>     the loop of handleHeaderFrame over one frame payload
 //	        -> ok fields=<flds> carry=<k> tbl=<tbl> max=<n> | err fields=<flds>   (err: the context starts afresh)
 //	hpack.enc <ctx> new dc=<0|1> dd=<0|1>        -> ok
@@ -38,6 +40,7 @@ type hpackCtx struct {
 	hp   *http2.HPACK
 	hf   *http2.HeaderField
 	prev []byte
+	seen bool // strm.fieldSeen
 
 	ref *xhpack.Decoder
 }
@@ -218,6 +221,11 @@ func (r *runner) runHpackDec(f []string) string {
 			http2.VerifSetSensible(c.hf, false)
 		}
 		rest, err := http2.VerifNextField(c.hp, c.hf, bs == 1, fp, b)
+		if err != nil && http2.VerifErrIsNeedMore(err) && len(rest) == 0 && onlySizeUpdates(b) {
+			// the input ended behind a size update: nothing is wrong, there is no field yet
+			t, max, _, _ := tblString(c.hp)
+			return fmt.Sprintf("none rest=0 tbl=%s max=%d", t, max)
+		}
 		if err != nil {
 			r.hp[name] = newHpackCtx()
 			if http2.VerifErrIsNeedMore(err) {
@@ -252,11 +260,37 @@ func (r *runner) runHpackDec(f []string) string {
 	return "bad-op"
 }
 
+// onlySizeUpdates: b is a sequence of complete dynamic table size updates (001xxxxx, 5-bit prefix integer)
+func onlySizeUpdates(b []byte) bool {
+	for len(b) > 0 {
+		if b[0]&0xe0 != 0x20 {
+			return false
+		}
+		i := 1
+		if b[0]&0x1f == 0x1f {
+			for i < len(b) && b[i]&0x80 != 0 {
+				i++
+			}
+			if i == len(b) {
+				return false
+			}
+			i++
+		}
+		b = b[i:]
+	}
+	return true
+}
+
 // headerFrame is the HPACK part of serverConn.handleHeaderFrame, transcribed: the carry-over of an
-// unfinished field in previousHeaderBytes, blockStart, fieldsProcessed, and what END_HEADERS does to a
-// field that is cut short. The message-level checks of that loop are not part of this area.
+// unfinished field in previousHeaderBytes (the octets nextField hands back with ErrUnexpectedSize),
+// fieldSeen / blockStart, fieldsProcessed, and what END_HEADERS does to a field that is cut short. The
+// message-level checks of that loop are not part of this area.
 func (c *hpackCtx) headerFrame(continuation, endHeaders bool, payload []byte) (fields [][3][]byte, bad bool) {
-	blockStart := !continuation && len(c.prev) == 0
+	if !continuation {
+		c.seen = false
+	}
+
+	blockStart := !c.seen
 
 	b := append(c.prev, payload...)
 	c.prev = b[:0]
@@ -269,19 +303,19 @@ func (c *hpackCtx) headerFrame(continuation, endHeaders bool, payload []byte) (f
 	fieldsProcessed := 0
 
 	for len(b) > 0 {
-		pb := b
-
 		b, err = http2.VerifNextField(c.hp, hf, blockStart, fieldsProcessed, b)
 		if err != nil {
-			if http2.VerifErrIsNeedMore(err) && len(pb) > 0 && !endHeaders {
+			if http2.VerifErrIsNeedMore(err) && (len(b) == 0 || !endHeaders) {
 				err = nil
-				c.prev = append(c.prev, pb...)
+				c.prev = append(c.prev, b...)
 			} else {
 				bad = true
 			}
 
 			break
 		}
+
+		c.seen = true
 
 		fields = append(fields, [3][]byte{append([]byte(nil), hf.KeyBytes()...), append([]byte(nil), hf.ValueBytes()...),
 			{byte(b01(hf.IsSensible()))}})
